@@ -7,6 +7,56 @@ NAMES = [
 ]
 
 
+def const_width_ulps_corpus():
+    """BOUNDED: edge i of with_const_width(start, end) within a few ulps (of max(|start|,|end|)) of start + i*(end-start)/LEN,
+    the last within a few ulps of end, over 30 orders of magnitude and LEN up to 100 (real semantics cannot see drift)."""
+    import math
+    from fractions import Fraction as Fr
+    import replay
+    from common import Obligation, DISCHARGED, REFUTED, UNDECIDED
+    ULPS = 4
+    pairs = [(0.0, 1.0), (0.0, 1000.0), (-1.0, 1.0), (0.1, 0.7), (-3.7, 12.9), (1e-15, 3e-15), (1e15, 1e15 + 1000.0), (-1e30, 1e30), (1e-30, 1e30),
+             (123456.789, 123457.789), (-0.3, 1e-3), (2.0 ** -20, 2.0 ** 20), (1e9, 1e9 + 1.0), (-1e-12, 1e-12)]
+    progs, metas = [], []
+    for ty, L in (("H4", 4), ("Histogram10", 10), ("H33", 33), ("H100", 100)):
+        for a, b in pairs:
+            progs.append({"type": ty, "ctor": ["with_const_width", a, b], "ops": [], "observe": ["ranges", "bins"]})
+            metas.append((L, a, b))
+    name = "C12.with_const_width.ulps_corpus"
+    fn = F + "::define_histogram!::with_const_width"
+    bound = "%d (start, end) pairs over 30 orders of magnitude x LEN in {4, 10, 33, 100}; tolerance %d ulps of max(|start|,|end|)" % (len(pairs), ULPS)
+    results = replay.run_programs(progs, timeout=900)
+    worst = 0.0
+    for pg, res, (L, a, b) in zip(progs, results, metas):
+        if res.get("error") or res["panic"]:
+            return [Obligation(name, fn, "replay+fractions", UNDECIDED if res.get("error") else REFUTED, 0.0, str(res.get("error") or res["panic"]),
+                               cex={"class": {"corpus": True}, "program": pg}, bounded=bound, kind="bounded")]
+        edges = res["obs"].get("ranges") or []
+        ulp = math.ulp(max(abs(a), abs(b)))
+        bad = None
+        if len(edges) != L + 1 or any(c != 0 for c in res["obs"].get("bins", [1])):
+            bad = ("shape", None, None)
+        elif replay.bits(edges[0]) != replay.bits(a) and not (edges[0] == a):
+            bad = ("edge[0]", a, edges[0])
+        else:
+            for i, e in enumerate(edges):
+                exact = Fr(a) + Fr(i) * (Fr(b) - Fr(a)) / L
+                err = abs(Fr(e) - exact) / Fr(ulp)
+                worst = max(worst, float(err))
+                if err > ULPS:
+                    bad = ("edge[%d]" % i, float(exact), e)
+                    break
+                if i > 0 and edges[i - 1] > e:
+                    bad = ("order[%d]" % i, edges[i - 1], e)
+                    break
+        if bad:
+            return [Obligation(name, fn, "replay+fractions", REFUTED, 0.0, "with_const_width(%r, %r), LEN %d: %s expected %r got %r" % (a, b, L, bad[0], bad[1], bad[2]),
+                               cex={"class": {"corpus": True}, "program": pg, "statistic": bad[0], "expected": repr(bad[1]), "actual": repr(bad[2])},
+                               bounded=bound, kind="bounded")]
+    return [Obligation(name, fn, "replay+fractions", DISCHARGED, 0.0, "all edges within %d ulps (worst %.2f ulps)" % (ULPS, worst), bounded=bound, kind="bounded",
+                       text="with_const_width edges vs exact rationals")]
+
+
 def run(tier, seed):
     lens = [1, 2, 3, 4] if tier == "quick" else [1, 2, 3, 4, 10]
     # with_const_width is float heavy in CBMC (LEN 3: ~300 s, LEN 4: ~760 s): quick covers LEN 1, 2
@@ -15,6 +65,7 @@ def run(tier, seed):
     obs += hist_job("C12", cw_lens, NAMES[1:], unwind=16, timeout=3000, harness_timeout=2400).run()
     if tier == "thorough":
         obs += hist_const_job("C12", [1, 3], NAMES[:1], unwind=9).run()
+    obs += const_width_ulps_corpus()
     try:
         import c12_rs
         obs += c12_rs.run(tier)
@@ -32,6 +83,7 @@ def run(tier, seed):
             "configurations: LEN in %s, complete per LEN: input = LEN+3 fully symbolic f64 (all bit patterns) and symbolic length 0..LEN+3" % lens,
             "oracle written from the property statement inside the harness (first offending position, NaN before NotSorted at the same index, NotEnoughRanges only when no earlier error)",
             "with_const_width: bit-precise part = non-decreasing edges, no NaN, first edge == start, zero counts for finite start < end, |start|,|end| <= 1e30",
+            "'within a few ulps' is exercised only by a BOUNDED corpus (with_const_width.ulps_corpus, 4 ulps, LEN up to 100)",
             "with_const_width edge i == start + i*(end-start)/LEN: exact-real statement (A-REAL); 'within a few ulps' is the rounding of three operations and is not proved" + ("" if rs else " (RS part not built yet)"),
             "A-CBMC",
         ],
@@ -42,6 +94,10 @@ def run(tier, seed):
 
 def confirm(ob):
     """Replay Kani's counterexample for from_ranges through the public API."""
+    c = ob.cex or {}
+    if c.get("program") and c.get("statistic"):
+        return {"program": c["program"], "expected": {c["statistic"]: c.get("expected")}, "actual": {c["statistic"]: c.get("actual")},
+                "confirmed_on_real_code": True}
     import re
     import replay
     m = re.search(r"hist\[(\d+)\]\.from_ranges", ob.name)
